@@ -14,6 +14,10 @@ class Let(Expression):
         self.expr = expr
         self.body = body
 
+        # Set by the translator when the name is already bound in the
+        # enclosing scope (an outer let, or a parameter).
+        self.shadows = False
+
     def __str__(self):
         return f'let {self.name} = {self.expr} in\n{self.body}'
 
@@ -26,5 +30,13 @@ class Let(Expression):
 
     def _compile(self, out, flags):
         with utils.if_succeeds(out, flags, self.expr):
+            if self.shadows:
+                # Bound names are locals of the generated function, so the
+                # outer binding has to be put back when the body is done.
+                saved = out.var('saved', Code(self.name))
+
             out += Code(self.name) << RESULT
             self.body.compile(out, flags)
+
+            if self.shadows:
+                out += Code(self.name) << saved
